@@ -2387,6 +2387,11 @@ def write_cache(
         manager.trace(f"Interface for {id} is unchanged")
     else:
         manager.trace(f"Interface for {id} has changed")
+        # Only the mtime of the data file ties it to the meta file, and the file system store
+        # records it in whole seconds. Make the old cache entry unusable before the data file
+        # is replaced, in case the new meta file never gets written.
+        if not invalidate_cache_meta_ex(meta_file, manager):
+            return interface_hash, None
         if not metastore.write(data_file, data_bytes):
             # Most likely the error is the replace() call
             # (see https://github.com/python/mypy/issues/3215).
